@@ -16,11 +16,14 @@ kioenv.activate()
 CANON_VAR = {"expl": 0, "unk": []}
 
 
-def limit_memory(gib: float = 3.0) -> None:
+def limit_memory(gib: float | None = None) -> None:
     """Workers that run kio on hostile input get an address-space limit, so that an allocation
     proportional to a corrupted length surfaces as MemoryError (an outcome the specification
     judges) instead of taking the machine down."""
     import resource
+    if gib is None:
+        # the thorough tiers handle shards several times larger: they raise the limit for their workers
+        gib = float(os.environ.get("KIO_VERIF_WORKER_GIB", "3.0"))
     lim = int(gib * 2**30)
     try:
         resource.setrlimit(resource.RLIMIT_AS, (lim, lim))
